@@ -56,12 +56,21 @@ class expr_t::parser_t : public noncopyable
   static const std::size_t MAX_NESTING_DEPTH = 256;
   mutable std::size_t nesting_depth;
 
+  // A chain of operators becomes a tree as deep as the chain is long, which
+  // compile(), calc() and the destructor then descend recursively, so the
+  // length of one expression is bounded as well
+  static const std::size_t MAX_TOKENS = 4096;
+  mutable std::size_t token_count;
+
   token_t& next_token(std::istream& in, const parse_flags_t& tflags,
                       const optional<token_t::kind_t>& expecting = none) const {
-    if (use_lookahead)
+    if (use_lookahead) {
       use_lookahead = false;
-    else
+    } else {
+      if (++token_count > MAX_TOKENS)
+        throw_(parse_error, _("Expression is too long"));
       lookahead.next(in, tflags);
+    }
 
     if (expecting && lookahead.kind != *expecting)
       lookahead.expected(*expecting);
@@ -113,7 +122,7 @@ class expr_t::parser_t : public noncopyable
                             const parse_flags_t& flags) const;
 
 public:
-  parser_t() : use_lookahead(false), nesting_depth(0) {
+  parser_t() : use_lookahead(false), nesting_depth(0), token_count(0) {
     TRACE_CTOR(parser_t, "");
   }
   ~parser_t() throw() {
